@@ -16,7 +16,7 @@ mod world;
 use query::{all_shapes, fill, gen_tree};
 use std::panic::{AssertUnwindSafe, catch_unwind};
 use vh_common::{Args, ModelProc, Report, Rng, read_corpus, read_replay, serde_json::json, shrink};
-use world::{CaseResult, VOCAB, World, show_params};
+use world::{CaseResult, VOCAB, VOCAB_MS, World, show_params};
 
 fn params_table() -> Vec<Option<(f32, f32)>> {
     vec![
@@ -38,14 +38,18 @@ fn params_table() -> Vec<Option<(f32, f32)>> {
     ]
 }
 
-fn words(rng: &mut Rng, lo: usize, hi: usize) -> Vec<String> {
+fn words_of(rng: &mut Rng, vocab: &[&str], lo: usize, hi: usize) -> Vec<String> {
     let n = lo + rng.usize(hi - lo + 1);
-    (0..n).map(|_| rng.pick(&VOCAB).to_string()).collect()
+    (0..n).map(|_| rng.pick(vocab).to_string()).collect()
 }
 
 /// One random history with queries and persistence events.
 fn gen_case(rng: &mut Rng, shapes: &[query::Tree]) -> Vec<String> {
     let mut ops = Vec::new();
+    // one case in five speaks the multi-script vocabulary (mixed with the plain one)
+    let mixed: Vec<&str> = VOCAB.iter().chain(VOCAB_MS.iter()).cloned().collect();
+    let vocab: &[&str] = if rng.chance(1, 5) { &mixed } else { &VOCAB };
+    let words = |rng: &mut Rng, lo: usize, hi: usize| words_of(rng, vocab, lo, hi);
     let overload = *rng.pick(&[524288usize, 524288, 0, 1, 48, 90, 160]);
     if overload != 524288 {
         ops.push(format!("cfg {overload}"));
@@ -80,13 +84,20 @@ fn gen_case(rng: &mut Rng, shapes: &[query::Tree]) -> Vec<String> {
             for i in &ids {
                 texts.remove(i);
             }
-            ops.push(format!("purge {}", vh_common::join(ids, ",")).trim_end().to_string());
+            ops.push(format!("purge {}", vh_common::join(ids.iter(), ",")).trim_end().to_string());
+            // a purged id is often used again at once (the region of the two known findings)
+            if !ids.is_empty() && rng.chance(1, 2) {
+                let id = ids[rng.usize(ids.len())];
+                let ws = words(rng, 1, 3);
+                texts.insert(id, ws.clone());
+                ops.push(format!("ins {id} {}", ws.join(" ")));
+            }
         } else if r < 70 {
             let p = show_params(*rng.pick(&ptab));
             ops.push(format!("search {p} {}", words(rng, 1, 3).join(" ")));
         } else if r < 86 {
             let p = show_params(*rng.pick(&ptab));
-            let t = if rng.chance(1, 2) { fill(rng.pick(shapes), rng, &VOCAB) } else { gen_tree(rng, &VOCAB, 3) };
+            let t = if rng.chance(1, 2) { fill(rng.pick(shapes), rng, vocab) } else { gen_tree(rng, vocab, 3) };
             ops.push(format!("adv {p} {}", t.unparse()));
         } else if r < 92 {
             ops.push("flush".into());
@@ -98,12 +109,18 @@ fn gen_case(rng: &mut Rng, shapes: &[query::Tree]) -> Vec<String> {
             ops.push("reload".into());
         } else {
             ops.push("compact".into());
+            // compaction is followed by a flush whose every prefix is loaded, or by a crash
+            match rng.below(4) {
+                0 | 1 => ops.push("flush".into()),
+                2 => ops.push(format!("crashload {}", rng.below(6))),
+                _ => {}
+            }
         }
     }
     // closing sweep: every case ends with queries and a flush whose prefixes are all loaded
     for _ in 0..2 {
         ops.push(format!("search def {}", words(rng, 1, 2).join(" ")));
-        ops.push(format!("adv def {}", gen_tree(rng, &VOCAB, 3).unparse()));
+        ops.push(format!("adv def {}", gen_tree(rng, vocab, 3).unparse()));
     }
     ops.push("flush".into());
     ops
